@@ -18,8 +18,11 @@ EXPLANATION = (
     "grid_slice_interp the interpolated axis is the axis removed from both the axes and the names list; "
     "R18.3 [data audit, exhaustive over all nodes of all shipped tables, reads files with h5py, runs no repo "
     "code] strictly increasing axes, CDF rows non-decreasing from 0 to 1 (1e-15), exit probabilities <= 1, "
-    "smallest reachable tau energy above the tau mass, axis names as the code expects. NOT decided: round "
-    "trip for arbitrary dtype/dimension, slicing values, agreement of vec_1d_interp with np.interp (values)."
+    "smallest reachable tau energy above the tau mass, axis names as the code expects; R18.5 the row-wise "
+    "interpolation has the structure of a piecewise-linear interpolation: the two bracket masks are exact "
+    "complements (a query equal to a node is bracketed by that node), each bracket's x and y are selected by the "
+    "same mask, and the value is the two-point formula between the brackets. NOT decided: round "
+    "trip for arbitrary dtype/dimension, slicing values, numerical agreement of vec_1d_interp with np.interp."
 )
 DATA, AXES = "__nss_grid_data__", "__nss_grid_axes__"
 
@@ -451,6 +454,10 @@ def run(ck, ctx):
         n = audit_tau_tables(ck, ctx)
         ck.floor("R18.3", n, 100000, "table nodes audited")
     ck.guard(audit, "R18.3")
+
+    # ---------------------------------------------------------------- R18.5 row-wise interpolation
+    from .c04 import bracketing_rules
+    bracketing_rules(ck, "R18.5", I)
 
 
 def _is_meta(n, grid):
